@@ -573,3 +573,66 @@ func alphaLocals(c *Ctx, fd *ast.FuncDecl) func(*ast.Ident) string {
 		return ""
 	}
 }
+
+// ruleSegIntersectMirror: getSegmentIntersection handles "an end point lies on the other segment's line" in four
+// blocks, one per end point; they must be images of one another under renaming of the points.
+func ruleSegIntersectMirror(rule string) func(*Ctx) {
+	return func(c *Ctx) {
+		fd := c.decl("getSegmentIntersection")
+		type blk struct {
+			own, a, b string
+			body      []ast.Stmt
+			pos       token.Pos
+		}
+		var blocks []blk
+		for _, s := range fd.Body.List {
+			ifs, ok := s.(*ast.IfStmt)
+			if !ok {
+				continue
+			}
+			cond, ok := ifs.Cond.(*ast.BinaryExpr)
+			if !ok || cond.Op != token.EQL || render(cond.Y) != "0" {
+				continue
+			}
+			// the block's own point: `ip = pK` first statement
+			if len(ifs.Body.List) == 0 {
+				continue
+			}
+			as, ok := ifs.Body.List[0].(*ast.AssignStmt)
+			if !ok || render(as.Lhs[0]) != "ip" {
+				continue
+			}
+			own := render(as.Rhs[0])
+			a, b := "p3", "p4"
+			if own == "p3" || own == "p4" {
+				a, b = "p1", "p2"
+			}
+			blocks = append(blocks, blk{own, a, b, ifs.Body.List, ifs.Pos()})
+		}
+		if len(blocks) != 4 {
+			fatalf("getSegmentIntersection: expected four end-point blocks, found %d", len(blocks))
+		}
+		norm := func(b blk, skipCollinear bool) string {
+			r := &renaming{idents: map[string]string{b.own: "Q", b.a: "A", b.b: "B"}}
+			body := b.body
+			var out []string
+			for i, s := range body {
+				if skipCollinear && i == 1 {
+					if ifs, ok := s.(*ast.IfStmt); ok && strings.Contains(render(ifs.Cond), "res") {
+						continue // `if resOther == 0 { return no-intersection }`: only the first block tests full collinearity
+					}
+				}
+				out = append(out, r.stmt(s))
+			}
+			return strings.Join(out, "; ")
+		}
+		ref := norm(blocks[1], false)
+		for i, b := range blocks {
+			got := norm(b, i == 0)
+			c.check(got == ref, rule, fmt.Sprintf("%s:getSegmentIntersection:endpoint-%s", rule, b.own), b.pos, "getSegmentIntersection",
+				fmt.Sprintf("the block for end point %s is the image of its siblings under point renaming", b.own),
+				fmt.Sprintf("the block for end point %s reads `%s` (Q=%s, other segment A=%s B=%s) but its sibling reads `%s`", b.own, got, b.own, b.a, b.b, ref),
+				"the four end points play symmetric roles: a block that tests another point (p2 == p4 for p1 == p4) misses a segment that ends exactly on a rectangle corner")
+		}
+	}
+}
